@@ -1295,10 +1295,66 @@ func heavyLine(i int) string {
 	return fmt.Sprintf("V 14000000 %s", hx.Hex(a.b))
 }
 
+// structGrowth: programs that copy a struct into itself. APPEND / SETITEM copy a struct operand by value (StructValue.Clone), so
+// `s.append(s)` doubles the number of nested elements per round; what stops it is the ONE counter cloneStruct threads through the
+// whole copy (MAX_CLONE_LENGTH = 1024 elements in total, not per root-to-leaf path): rounds 1..11 succeed, round 12 is the VM
+// error "over max struct clone length". kind 0: NEWSTRUCT (DUP DUP APPEND)×n; 1: two slots, s[0]=s; s[1]=s per round (SETITEM);
+// 2: self-append with a plain element appended in between; 3: the struct sits inside an array that is appended to itself's struct.
+func structGrowth(kind, n int) []byte {
+	a := &asm{}
+	switch kind {
+	case 0:
+		a.pushI(0).op(opNEWSTRUCT)
+		for i := 0; i < n; i++ {
+			a.op(opDUP, opDUP, opAPPEND)
+		}
+	case 1:
+		a.pushI(0).op(opNEWSTRUCT, opDUP).pushI(0).op(opAPPEND, opDUP).pushI(0).op(opAPPEND)
+		for i := 0; i < n; i++ {
+			a.op(opDUP, opDUP).pushI(0).op(opSWAP, opSETITEM, opDUP, opDUP).pushI(1).op(opSWAP, opSETITEM)
+		}
+	case 2:
+		a.pushI(0).op(opNEWSTRUCT)
+		for i := 0; i < n; i++ {
+			a.op(opDUP, opDUP, opAPPEND, opDUP).pushI(int64(i)).op(opAPPEND)
+		}
+	default:
+		// s = struct{ [] }: the array inside is shared by every copy, the struct around it is not
+		a.pushI(0).op(opNEWSTRUCT, opDUP).pushI(0).op(opNEWARRAY, opAPPEND)
+		for i := 0; i < n; i++ {
+			a.op(opDUP, opDUP, opAPPEND)
+		}
+	}
+	return a.b
+}
+
+// structGrowthLine: deterministic in i
+func structGrowthLine(i int) string {
+	j := i / 211
+	kind := j % 4
+	n := 9 + (j/4)%6 // 9..14: both sides of the boundary
+	if kind == 1 {
+		n = 4 + (j/4)%6 // two copies per round
+	}
+	code := structGrowth(kind, n)
+	if j%7 == 6 {
+		return fmt.Sprintf("V 2000000 %s", hx.Hex(code))
+	}
+	return fmt.Sprintf("X %d %s", j%2, hx.Hex(code))
+}
+
 func Gen(r *hx.Rand, tier string, i int) string {
 	if tier == "thorough" && i < 3 {
 		return heavyLine(i)
 	}
+	l := genLine(r, tier, i) // always drawn, so that the PRNG stream - and with it every other line of a seed - stays what it was
+	if i%211 == 17 {
+		return structGrowthLine(i)
+	}
+	return l
+}
+
+func genLine(r *hx.Rand, tier string, i int) string {
 	k := r.Intn(100)
 	switch os.Getenv("C12_ONLY") { // development aid: one line kind only
 	case "X":
